@@ -223,6 +223,9 @@ type RelayRun struct {
 	Kicks          []KickRecord
 	goBase         map[string]int
 	GoroutineDiff  string
+	// the "RTSP relay pull overtaken by a publisher" scenario of C03
+	rtspOrigins  []*heldRtspOrigin
+	rtspPullApis []*ApiCall
 }
 
 // goroutineProfile counts this process's goroutines by creation site.
@@ -281,6 +284,16 @@ func ExecRelay(k *sim.Kernel, pl RelayPlan) *RelayRun {
 	}
 	if len(pl.Conf.PushAddrs) > 0 {
 		k.WatchGrants("AddRtmpPushSession")
+	}
+	for _, op := range pl.Ops {
+		if op.Kind == "rtsp_pull_start" {
+			k.RegisterStub(rtspOriginAddr, func(c *sim.Conn) (sim.ConnHandler, time.Duration) {
+				o := &heldRtspOrigin{conn: c}
+				rr.rtspOrigins = append(rr.rtspOrigins, o)
+				return o, 0
+			})
+			break
+		}
 	}
 	rr.W = StartWorld(k, pl.Conf)
 	k.Advance(1100 * time.Millisecond) // first tick done: steady state
@@ -367,6 +380,8 @@ func (rr *RelayRun) exec(k *sim.Kernel, op RelayOp) {
 		k.Settle()
 	case "advance":
 		k.Advance(time.Duration(op.Ms) * time.Millisecond)
+	case "rtsp_pull_start", "rtsp_pull_release":
+		rr.execRtspPull(k, op)
 	case "start_pub":
 		if op.Pub >= len(rr.Pubs) {
 			return
